@@ -79,6 +79,11 @@ ANCHORS = [
     "gemseo.algos.parameter_space:ParameterSpace.compute_samples",
     "gemseo.algos.parameter_space:ParameterSpace.get_range",
     "gemseo.algos.parameter_space:ParameterSpace.get_support",
+    "gemseo.algos.parameter_space:ParameterSpace.rename_variable",
+    "gemseo.algos.parameter_space:ParameterSpace.remove_variable",
+    "gemseo.algos.parameter_space:ParameterSpace.extract_uncertain_space",
+    "gemseo.algos.parameter_space:ParameterSpace.extract_deterministic_space",
+    "gemseo.algos.parameter_space:ParameterSpace.add_variables_from",
     "gemseo.uncertainty.statistics.empirical_statistics:EmpiricalStatistics.compute_mean",
     "gemseo.uncertainty.statistics.empirical_statistics:EmpiricalStatistics.compute_standard_deviation",
     "gemseo.uncertainty.statistics.empirical_statistics:EmpiricalStatistics.compute_quantile",
@@ -94,7 +99,8 @@ MIN_COUNTERS = {
               "sample_mean_checked": 2250, "sp_vs_ot_compared": 420, "transform_random_component_checked": 6000,
               "transform_deterministic_component_checked": 2100, "untransform_random_component_checked": 6000,
               "space_sample_columns_checked": 1500, "sp_vs_ot_spaces_compared": 165, "empirical_statistics_vs_numpy": 6000,
-              "empirical_quantile_vs_law": 810, "parametric_statistics_checked": 120, "two_dimensional_inputs_checked": 420},
+              "empirical_quantile_vs_law": 810, "parametric_statistics_checked": 120, "two_dimensional_inputs_checked": 420,
+              "spaces_edited_before_sampling": 150, "renamed_random_variables_not_last": 100, "joint_rebuilt_after_renaming_a_random_variable_not_last": 50, "renamed_deterministic_variables": 15, "removed_random_variables": 30, "random_variables_added_after_construction": 70, "filtered_spaces": 35, "extracted_uncertain_spaces": 15, "joint_distributions_rebuilt": 40, "spaces_copied_with_add_variables_from": 25, "spaces_queried_before_the_edits": 150, "as_dict_keys_checked_against_their_law": 1800, "joint_distribution_order_checked": 450},
     "thorough": {"cdf_vs_closed_form": 660000, "quantile_vs_closed_form": 660000, "cdf_of_icdf": 660000,
                  "icdf_of_cdf": 660000, "moments_vs_closed_form": 28000, "range_checked": 29000, "support_checked": 29000,
                  "dkw_bands_checked": 56000, "sample_mean_checked": 44000, "sp_vs_ot_compared": 9600,
@@ -102,11 +108,13 @@ MIN_COUNTERS = {
                  "untransform_random_component_checked": 110000, "space_sample_columns_checked": 27000,
                  "sp_vs_ot_spaces_compared": 3400, "empirical_statistics_vs_numpy": 110000,
                  "empirical_quantile_vs_law": 14800, "parametric_statistics_checked": 2200,
-                 "two_dimensional_inputs_checked": 7600},
+                 "two_dimensional_inputs_checked": 7600,
+                 "spaces_edited_before_sampling": 2250, "renamed_random_variables_not_last": 1500, "joint_rebuilt_after_renaming_a_random_variable_not_last": 750, "renamed_deterministic_variables": 225, "removed_random_variables": 450, "random_variables_added_after_construction": 1050, "filtered_spaces": 525, "extracted_uncertain_spaces": 225, "joint_distributions_rebuilt": 600, "spaces_copied_with_add_variables_from": 375, "spaces_queried_before_the_edits": 2250, "as_dict_keys_checked_against_their_law": 27000, "joint_distribution_order_checked": 6750},
 }
 SHARD_TIMEOUT = {"quick": 900, "thorough": 4000}
 
 N_SAMPLES = 20000
+N_DICT = 400
 DKW = math.sqrt(math.log(2.0 / 1e-11) / (2.0 * N_SAMPLES))      # P(sup|Fn - F| > DKW) <= 1e-11
 P_GRID = np.concatenate([[1e-3, 1e-2], np.linspace(0.05, 0.95, 19), [0.99, 0.999]])
 XREL = 1e-12
@@ -192,6 +200,18 @@ def seed_all(seed):
 
     np.random.seed(seed % (2**32 - 1))
     ot.RandomGenerator.SetSeed(int(seed % (2**31 - 1)))
+
+
+def seed_space(ps, lib, seed):
+    """Seed every generator a parameter space may draw from.
+
+    SciPy frozen laws draw from numpy's global generator, except after a deep copy of the space
+    (``filter(copy=True)``, ``extract_uncertain_space``) which gives them private copies of it: these are reseeded too.
+    """
+    seed_all(seed)
+    if lib == "SP" and ps.distribution is not None:
+        for k, m in enumerate(ps.distribution.marginals):
+            m.distribution.random_state = np.random.RandomState((seed + 7919 * (k + 1)) % (2**32 - 1))
 
 
 # --------------------------------------------------------------------------- tolerances and small predicates
@@ -423,23 +443,24 @@ def judge_dist(lib, desc, law, rep, seed):
     return out
 
 
-def judge_sample_column(smp, law, desc, sup, rng_, sig, rep, what):
+def judge_sample_column(smp, law, desc, sup, rng_, sig, rep, what, case=None):
     """Samples of one scalar component against its law: support, DKW band, mean and std."""
+    payload = desc if case is None else dict(case, failing_law=desc)
     n = smp.size
     if not finite(smp):
-        rep.violation(f"{sig}:{what}-non-finite", "finite samples", desc, observed=smp[~np.isfinite(smp)][:5])
+        rep.violation(f"{sig}:{what}-non-finite", "finite samples", payload, observed=smp[~np.isfinite(smp)][:5])
         return
     lo, hi = law.support()
     pad = cond_pad(desc, float(np.max(np.abs(smp))))
     rep.count("samples_checked_in_support", n)
     if smp.min() < sup[0] - pad or smp.max() > sup[1] + pad or smp.min() < lo - pad - 1e-9 * law_scale(law) or smp.max() > hi + pad + 1e-9 * law_scale(law):
-        rep.violation(f"{sig}:{what}-outside-support", "samples lie in the reported support", desc,
+        rep.violation(f"{sig}:{what}-outside-support", "samples lie in the reported support", payload,
                       observed={"min": smp.min(), "max": smp.max()}, expected={"reported": sup, "analytical": [lo, hi]})
     if rng_ is not None and (smp.min() < rng_[0] - pad or smp.max() > rng_[1] + pad):
         rep.observe("sample-outside-numerical-range", {"case": desc, "min": smp.min(), "max": smp.max(), "range": rng_})
     if isinstance(law, laws.Dirac):
         if np.any(smp != law.v):
-            rep.violation(f"{sig}:{what}-dirac", "Dirac samples equal the value", desc, observed=smp[:5], expected=law.v)
+            rep.violation(f"{sig}:{what}-dirac", "Dirac samples equal the value", payload, observed=smp[:5], expected=law.v)
         return
     band = math.sqrt(math.log(2.0 / 1e-11) / (2.0 * n))
     s = np.sort(smp)
@@ -449,22 +470,22 @@ def judge_sample_column(smp, law, desc, sup, rng_, sig, rep, what):
     rep.count("dkw_bands_checked")
     if dist > band + tol_of(desc):
         rep.violation(f"{sig}:{what}-do-not-follow-the-law", "empirical CDF within the DKW band (1e-11) of the closed-form CDF",
-                      desc, observed={"sup_distance": dist, "sample_mean": smp.mean(), "sample_std": smp.std()},
+                      payload, observed={"sup_distance": dist, "sample_mean": smp.mean(), "sample_std": smp.std()},
                       expected={"band": band, "mean": law.mean(), "std": law.std()})
         return
     k = law.kurt()
-    if k is not None and law.mean() is not None:
+    if k is not None and law.mean() is not None and n >= 10000:   # the CLT-based thresholds are only used on large samples
         sd = law.std()
         if k <= 30:
             rep.count("sample_mean_checked")
             if abs(smp.mean() - law.mean()) > 8 * sd / math.sqrt(n) + cond_pad(desc, law.mean()):
-                rep.violation(f"{sig}:{what}-mean-off", "sample mean within 8 standard errors", desc,
+                rep.violation(f"{sig}:{what}-mean-off", "sample mean within 8 standard errors", payload,
                               observed=smp.mean(), expected={"mean": law.mean(), "se": sd / math.sqrt(n)})
         if k <= 10:
             rep.count("sample_std_checked")
             se_var = sd * sd * math.sqrt((k - 1.0) / n)
             if abs(smp.var() - sd * sd) > 10 * se_var + 2 * sd * sd / n:
-                rep.violation(f"{sig}:{what}-std-off", "sample variance within 10 standard errors", desc,
+                rep.violation(f"{sig}:{what}-std-off", "sample variance within 10 standard errors", payload,
                               observed=smp.std(), expected={"std": sd, "se_var": se_var})
 
 
@@ -509,45 +530,100 @@ def run_law_case(desc, rep, seed):
 
 
 # --------------------------------------------------------------------------- parameter spaces
-def build_space(lib, case):
+def add_var(ps, lib, v):
+    """Add one variable of the case description to a real parameter space."""
+    if v["role"] == "det":
+        ub = np.array([np.inf if u is None else u for u in v["ub"]], dtype=float)
+        lb = np.array(v["lb"], dtype=float)
+        if v["type"] == "integer":
+            ps.add_variable(v["name"], v["size"], "integer", lower_bound=lb.astype(int), upper_bound=ub.astype(int))
+        else:
+            ps.add_variable(v["name"], v["size"], "float", lower_bound=lb, upper_bound=ub)
+        return
+    d0 = v["laws"][0]
+    kw = ot_options(d0) if lib == "OT" else {}
+    generic = d0.get("via") == "generic"
+    if v["shared"]:
+        if generic:
+            name, par = generic_args(lib, d0["family"], d0["params"])
+            ps.add_random_variable(v["name"], lib + "Distribution", v["size"], interfaced_distribution=name,
+                                   interfaced_distribution_parameters=par, **kw)
+        else:
+            ps.add_random_variable(v["name"], lib + CLS[d0["family"]], v["size"], **d0["params"], **kw)
+    else:
+        if generic:
+            args = [generic_args(lib, d["family"], d["params"]) for d in v["laws"]]
+            name = args[0][0]
+            if lib == "OT":
+                par = tuple([a[1][i] for a in args] for i in range(len(args[0][1])))
+            else:
+                par = {k: [a[1][k] for a in args] for k in args[0][1]}
+            ps.add_random_vector(v["name"], lib + "Distribution", interfaced_distribution=name,
+                                 interfaced_distribution_parameters=par)
+        else:
+            par = {k: [d["params"][k] for d in v["laws"]] for k in d0["params"]}
+            for k in ("set_log", "use_weibull_min"):
+                if k in par:
+                    par[k] = [par[k][0]]
+            ps.add_random_vector(v["name"], lib + CLS[d0["family"]], **par)
+
+
+def warm_up(ps, variables):
+    """Query the space before it is edited, so that every lazily computed cache exists when the edits come."""
+    comps = space_layout({"variables": variables})
+    X, U = space_points({"point_seed": 5, "n_points": 1}, comps)
+    ps.transform_vect(X[0].copy())
+    ps.untransform_vect(U[0].copy())
+    ps.normalize_vect(X[0].copy())
+    ps.compute_samples(2)
+    ps.compute_samples(2, as_dict=True)
+    ps.get_lower_bounds()
+    ps.get_upper_bounds()
+
+
+def apply_edit(ps, lib, e):
+    """Apply one edit of the history to the real parameter space; returns the space to go on with."""
+    from gemseo.algos.parameter_space import ParameterSpace
+
+    op = e["op"]
+    if op == "rename":
+        ps.rename_variable(e["name"], e["new"])
+    elif op == "remove":
+        ps.remove_variable(e["name"])
+    elif op in ("add_random", "add_det"):
+        add_var(ps, lib, e["var"])
+    elif op == "filter":
+        ps = ps.filter(list(e["keep"]), copy=e["copy"])
+    elif op == "extract_uncertain":
+        ps = ps.extract_uncertain_space()
+    elif op == "rebuild":
+        ps.build_joint_distribution()
+    elif op == "add_variables_from":
+        new = ParameterSpace()
+        new.add_variables_from(ps, *e["names"])
+        ps = new
+    else:
+        raise ValueError(op)
+    return ps
+
+
+def build_space(lib, case, rep=None):
     from gemseo.algos.parameter_space import ParameterSpace
 
     ps = ParameterSpace()
     for v in case["variables"]:
-        if v["role"] == "det":
-            ub = np.array([np.inf if u is None else u for u in v["ub"]], dtype=float)
-            lb = np.array(v["lb"], dtype=float)
-            if v["type"] == "integer":
-                ps.add_variable(v["name"], v["size"], "integer", lower_bound=lb.astype(int), upper_bound=ub.astype(int))
-            else:
-                ps.add_variable(v["name"], v["size"], "float", lower_bound=lb, upper_bound=ub)
-            continue
-        d0 = v["laws"][0]
-        kw = ot_options(d0) if lib == "OT" else {}
-        generic = d0.get("via") == "generic"
-        if v["shared"]:
-            if generic:
-                name, par = generic_args(lib, d0["family"], d0["params"])
-                ps.add_random_variable(v["name"], lib + "Distribution", v["size"], interfaced_distribution=name,
-                                       interfaced_distribution_parameters=par, **kw)
-            else:
-                ps.add_random_variable(v["name"], lib + CLS[d0["family"]], v["size"], **d0["params"], **kw)
-        else:
-            if generic:
-                args = [generic_args(lib, d["family"], d["params"]) for d in v["laws"]]
-                name = args[0][0]
-                if lib == "OT":
-                    par = tuple([a[1][i] for a in args] for i in range(len(args[0][1])))
-                else:
-                    par = {k: [a[1][k] for a in args] for k in args[0][1]}
-                ps.add_random_vector(v["name"], lib + "Distribution", interfaced_distribution=name,
-                                     interfaced_distribution_parameters=par)
-            else:
-                par = {k: [d["params"][k] for d in v["laws"]] for k in d0["params"]}
-                for k in ("set_log", "use_weibull_min"):
-                    if k in par:
-                        par[k] = [par[k][0]]
-                ps.add_random_vector(v["name"], lib + CLS[d0["family"]], **par)
+        add_var(ps, lib, v)
+    edits = case.get("edits") or []
+    if edits:
+        if case.get("warm"):
+            warm_up(ps, case["variables"])
+            if rep is not None:
+                rep.count("spaces_queried_before_the_edits")
+        for k, e in enumerate(edits):
+            ps = apply_edit(ps, lib, e)
+            if case.get("warm") and k == 0 and len(edits) > 1:
+                # and once more in the middle of the history
+                warm_up(ps, gen.apply_edits_model(case["variables"], edits[:1]))
     return ps
 
 
@@ -600,15 +676,16 @@ def space_signature(case):
             sig.append(("det", v["type"], v["size"], v["ub"][0] is None))
         else:
             sig.append(("rand", feat(v["laws"][0]), v["size"], v["shared"]))
-    return ("space", tuple(sig), tuple(case["libs"]))
+    hist = tuple(e["op"] + (":" + ("copy" if e["copy"] else "inplace") if e["op"] == "filter" else "") for e in case.get("edits") or [])
+    return ("space", tuple(sig), tuple(case["libs"]), hist, bool(case.get("warm")))
 
 
-def det_twin(case):
+def det_twin(variables):
     """A plain DesignSpace holding the deterministic variables only (the 'affine design-space map')."""
     from gemseo.algos.design_space import DesignSpace
 
     ds = DesignSpace()
-    for v in case["variables"]:
+    for v in variables:
         if v["role"] == "det":
             ub = np.array([np.inf if u is None else u for u in v["ub"]], dtype=float)
             lb = np.array(v["lb"], dtype=float)
@@ -619,10 +696,10 @@ def det_twin(case):
     return ds
 
 
-def judge_space(lib, case, comps, X, U, rep, seed):
+def judge_space(lib, case, model, comps, X, U, rep, seed):
     sig0 = f"C19:space:{lib}"
     try:
-        ps = build_space(lib, case)
+        ps = build_space(lib, case, rep)
     except Exception as e:
         rep.violation(f"{sig0}:construction-raises:{type(e).__name__}", "parameter space is constructible", case,
                       observed=f"{type(e).__name__}: {e}"[:400])
@@ -630,13 +707,32 @@ def judge_space(lib, case, comps, X, U, rep, seed):
     rep.count(f"spaces_built_{lib}")
     det_idx = [i for i, c in enumerate(comps) if c["role"] == "det"]
     rnd_idx = [i for i, c in enumerate(comps) if c["role"] == "rand"]
-    names = [v["name"] for v in case["variables"]]
-    if list(ps.variable_names) != names or ps.dimension != len(comps) or list(ps.uncertain_variables) != [
-            v["name"] for v in case["variables"] if v["role"] == "rand"]:
+    names = [v["name"] for v in model]
+    if list(ps.variable_names) != names or ps.dimension != len(comps):
         rep.violation(f"{sig0}:layout", "variables are laid out in insertion order", case,
-                      observed={"names": list(ps.variable_names), "uncertain": list(ps.uncertain_variables), "dim": ps.dimension})
+                      observed={"names": list(ps.variable_names), "dim": ps.dimension}, expected={"names": names, "dim": len(comps)})
         return None
-    twin = det_twin(case) if det_idx else None
+    exp_unc = [v["name"] for v in model if v["role"] == "rand"]
+    if list(ps.uncertain_variables) != exp_unc:
+        # reported, then the sample / joint-distribution clauses below show what it does to the numbers
+        rep.violation(f"{sig0}:uncertain_variables-not-in-the-order-of-the-space", "random variables are listed in the order of the space", case,
+                      observed=list(ps.uncertain_variables), expected=exp_unc)
+    twin = det_twin(model) if det_idx else None
+    # the deterministic part extracted as a design space keeps the deterministic variables, in order, with their bounds
+    try:
+        dd = ps.extract_deterministic_space()
+        rep.count("extracted_deterministic_spaces_checked")
+        dn = [v["name"] for v in model if v["role"] == "det"]
+        lbs = [c["lb"] for c in comps if c["role"] == "det"]
+        ubs = [np.inf if c["ub"] is None else c["ub"] for c in comps if c["role"] == "det"]
+        if list(dd.variable_names) != dn or (dn and (not np.array_equal(np.asarray(dd.get_lower_bounds(), dtype=float), np.array(lbs, dtype=float))
+                                                     or not np.array_equal(np.asarray(dd.get_upper_bounds(), dtype=float), np.array(ubs, dtype=float)))):
+            rep.violation(f"{sig0}:extract_deterministic_space:differs-from-the-model", "deterministic variables are kept as they are", case,
+                          observed={"names": list(dd.variable_names), "lb": dd.get_lower_bounds() if dn else [], "ub": dd.get_upper_bounds() if dn else []},
+                          expected={"names": dn, "lb": lbs, "ub": ubs})
+    except Exception as e:
+        rep.violation(f"{sig0}:extract_deterministic_space-raises:{type(e).__name__}", "the deterministic part is extractable", case,
+                      observed=f"{type(e).__name__}: {e}"[:400])
     out = {"T": [], "Xu": []}
 
     def fail(where, what, clause, i, observed, expected, point):
@@ -746,7 +842,7 @@ def judge_space(lib, case, comps, X, U, rep, seed):
     x = X[0]
     o = 0
     dct, udct = {}, {}
-    for v in case["variables"]:
+    for v in model:
         if v["role"] == "rand":
             dct[v["name"]] = x[o:o + v["size"]].copy()
             udct[v["name"]] = U[0][o:o + v["size"]].copy()
@@ -756,7 +852,7 @@ def judge_space(lib, case, comps, X, U, rep, seed):
         ic = ps.evaluate_cdf(udct, inverse=True)
         rep.count("evaluate_cdf_checked")
         o = 0
-        for v in case["variables"]:
+        for v in model:
             if v["role"] == "rand":
                 a = np.asarray(cd[v["name"]], dtype=float)
                 b = np.asarray(ic[v["name"]], dtype=float)
@@ -790,7 +886,7 @@ def judge_space(lib, case, comps, X, U, rep, seed):
     # ---- range / support per variable
     o = 0
     sup_all, rng_all = [], []
-    for v in case["variables"]:
+    for v in model:
         if v["role"] == "rand":
             rg = np.asarray(ps.get_range(v["name"]), dtype=float)
             sp = np.asarray(ps.get_support(v["name"]), dtype=float)
@@ -818,11 +914,11 @@ def judge_space(lib, case, comps, X, U, rep, seed):
     # ---- samples of the joint distribution
     nr = len(rnd_idx)
     try:
-        seed_all(seed)
+        seed_space(ps, lib, seed)
         S = np.asarray(ps.compute_samples(N_SAMPLES), dtype=float)
-        seed_all(seed + 1)
+        seed_space(ps, lib, seed + 1)
         S5 = np.asarray(ps.compute_samples(5), dtype=float)
-        seed_all(seed + 1)
+        seed_space(ps, lib, seed + 1)
         D5 = ps.compute_samples(5, as_dict=True)
     except Exception as e:
         rep.violation(f"{sig0}:compute_samples-raises:{type(e).__name__}", "compute_samples returns samples", case,
@@ -837,12 +933,12 @@ def judge_space(lib, case, comps, X, U, rep, seed):
         c = comps[i]
         rep.count("space_sample_columns_checked")
         judge_sample_column(S[:, k], c["law"], c["desc"], sup_all[k], rng_all[k], f"{sig0}:compute_samples:{feat(c['desc'])}",
-                            rep, f"column")
+                            rep, "column", case=case)
     ok = isinstance(D5, list) and len(D5) == 5
     if ok:
         for r, row in enumerate(D5):
             k = 0
-            for v in case["variables"]:
+            for v in model:
                 if v["role"] == "rand":
                     a = np.asarray(row.get(v["name"], []), dtype=float)
                     ok = ok and a.shape == (v["size"],) and np.array_equal(a, S5[r, k:k + v["size"]])
@@ -851,16 +947,71 @@ def judge_space(lib, case, comps, X, U, rep, seed):
     if not ok:
         rep.violation(f"{sig0}:compute_samples:as_dict-differs-from-array", "as_dict splits the same rows by variable", case,
                       observed=D5[:2] if isinstance(D5, list) else repr(D5)[:200], expected=S5[:2])
+    # ---- as_dict samples: each key judged against the law of ITS variable
+    try:
+        seed_space(ps, lib, seed + 2)
+        D = ps.compute_samples(N_DICT, as_dict=True)
+        k = 0
+        for v in model:
+            if v["role"] != "rand":
+                continue
+            vals = np.array([np.asarray(row[v["name"]], dtype=float) for row in D])
+            for jj in range(v["size"]):
+                c = comps[rnd_idx[k + jj]]
+                rep.count("as_dict_keys_checked_against_their_law")
+                judge_sample_column(vals[:, jj], c["law"], c["desc"], sup_all[k + jj], rng_all[k + jj],
+                                    f"{sig0}:compute_samples-as_dict:{feat(c['desc'])}", rep, "key", case=case)
+            k += v["size"]
+    except Exception as e:
+        rep.violation(f"{sig0}:compute_samples-as_dict-raises:{type(e).__name__}", "as_dict samples carry every random variable", case,
+                      observed=f"{type(e).__name__}: {e}"[:400])
+
+    # ---- the joint distribution lists its components in the order of the random variables of the space
+    try:
+        jd = ps.distribution
+        jsup = np.asarray(jd.support, dtype=float)
+        jrng = np.asarray(jd.range, dtype=float)
+        jmean = np.asarray(jd.mean, dtype=float)
+        jstd = np.asarray(jd.standard_deviation, dtype=float)
+        rep.count("joint_distribution_order_checked")
+        if jsup.shape != (nr, 2) or jrng.shape != (nr, 2) or jmean.shape != (nr,) or jstd.shape != (nr,):
+            rep.violation(f"{sig0}:joint-distribution:shape", "one row per random component", case,
+                          observed=[list(jsup.shape), list(jrng.shape), list(jmean.shape), list(jstd.shape)], expected=nr)
+        else:
+            for k, i in enumerate(rnd_idx):
+                c = comps[i]
+                law, tol, sc = c["law"], tol_of(c["desc"]), law_scale(c["law"])
+                lo, hi = law.support()
+                transformed_unbounded = c["desc"].get("transform") and (math.isinf(lo) or math.isinf(hi))
+                ok = all((a == b) if math.isinf(b) else abs(a - b) <= tol * sc + cond_pad(c["desc"], b) for a, b in zip(jsup[k], (lo, hi)))
+                if not transformed_unbounded and not ok:
+                    fail("joint-distribution", "support-row-is-not-that-of-its-variable", "joint support follows the variable order", i, jsup[k], [lo, hi], None)
+                if not np.array_equal(jsup[k], sup_all[k]) or not np.array_equal(jrng[k], rng_all[k]):
+                    fail("joint-distribution", "support-or-range-row-differs-from-get_support", "joint support/range follow the variable order", i,
+                         {"joint": [jsup[k], jrng[k]]}, {"by_name": [sup_all[k], rng_all[k]]}, None)
+                if law.mean() is not None and law.std() is not None:
+                    mt = 1e-3 if (c["desc"].get("trunc") or c["desc"].get("transform")) else tol
+                    if abs(jmean[k] - law.mean()) > mt * max(law.std(), 1e-300) + cond_pad(c["desc"], law.mean()) + (mt if law.std() == 0 else 0) \
+                            or abs(jstd[k] - law.std()) > mt * law.std():
+                        fail("joint-distribution", "moments-are-not-those-of-its-variable", "joint mean/std follow the variable order", i,
+                             [jmean[k], jstd[k]], [law.mean(), law.std()], None)
+    except Exception as e:
+        rep.violation(f"{sig0}:joint-distribution-raises:{type(e).__name__}", "the joint distribution reports support/range/moments", case,
+                      observed=f"{type(e).__name__}: {e}"[:400])
     out["S"] = S
     out["ps"] = ps
     return out
 
 
 def run_space_case(case, rep, seed):
-    comps = space_layout(case)
+    edits = case.get("edits") or []
+    model = gen.apply_edits_model(case["variables"], edits)
+    comps = space_layout({"variables": model})
     X, U = space_points(case, comps)
     rep.case(space_signature(case), True)
-    res = {lib: judge_space(lib, case, comps, X, U, rep, seed) for lib in case["libs"]}
+    if edits:
+        count_edits(case, rep)
+    res = {lib: judge_space(lib, case, model, comps, X, U, rep, seed) for lib in case["libs"]}
     a, b = res.get("SP"), res.get("OT")
     if a and b and len(a["T"]) == len(X) and len(b["T"]) == len(X) and len(a["Xu"]) == len(U) and len(b["Xu"]) == len(U):
         rep.count("sp_vs_ot_spaces_compared")
@@ -886,16 +1037,41 @@ def run_space_case(case, rep, seed):
     for lib in case["libs"]:
         r = res.get(lib)
         if r and "S" in r:
-            judge_statistics(lib, case, comps, r["S"], rep)
+            judge_statistics(lib, case, model, comps, r["S"], rep)
             break
 
 
+def count_edits(case, rep):
+    """Counters proving which kinds of histories were exercised before the sample / transform clauses."""
+    rep.count("spaces_edited_before_sampling")
+    variables = case["variables"]
+    for k, e in enumerate(case["edits"]):
+        before = gen.apply_edits_model(variables, case["edits"][:k])
+        rnd = [v["name"] for v in before if v["role"] == "rand"]
+        op = e["op"]
+        if op == "rename":
+            if e["name"] in rnd:
+                rep.count("renamed_random_variables")
+                if e["name"] != rnd[-1]:
+                    rep.count("renamed_random_variables_not_last")
+                    if any(x["op"] in ("add_random", "remove", "rebuild", "extract_uncertain", "filter") for x in case["edits"][k + 1:]):
+                        rep.count("joint_rebuilt_after_renaming_a_random_variable_not_last")
+            else:
+                rep.count("renamed_deterministic_variables")
+        elif op == "remove":
+            rep.count("removed_random_variables" if e["name"] in rnd else "removed_deterministic_variables")
+        else:
+            rep.count({"add_random": "random_variables_added_after_construction", "add_det": "deterministic_variables_added_after_construction",
+                       "filter": "filtered_spaces", "extract_uncertain": "extracted_uncertain_spaces", "rebuild": "joint_distributions_rebuilt",
+                       "add_variables_from": "spaces_copied_with_add_variables_from"}[op])
+
+
 # --------------------------------------------------------------------------- statistics estimators on generated samples
-def judge_statistics(lib, case, comps, S, rep):
+def judge_statistics(lib, case, model, comps, S, rep):
     from gemseo.datasets.dataset import Dataset
     from gemseo.uncertainty.statistics.empirical_statistics import EmpiricalStatistics
 
-    rnd = [v for v in case["variables"] if v["role"] == "rand"]
+    rnd = [v for v in model if v["role"] == "rand"]
     names = [v["name"] for v in rnd]
     sizes = {v["name"]: v["size"] for v in rnd}
     sig0 = "C19:statistics:empirical"
@@ -1100,6 +1276,34 @@ def directed_cases():
         {"name": "t", "role": "rand", "size": 1, "shared": True, "laws": [tn]},
         {"name": "a", "role": "rand", "size": 2, "shared": True, "laws": [au]},
         {"name": "x", "role": "det", "type": "float", "size": 2, "lb": [0.0, 1.0], "ub": [2.0, 5.0]}]})
+    # edited spaces: the history is applied to the real space and mirrored in the model before any clause runs
+    def uni(a, b):
+        return {"kind": "law", "family": "uniform", "params": {"minimum": a, "maximum": b}, "via": "class",
+                "libs": ["SP", "OT"], "transform": None, "trunc": None}
+
+    def rv(name, a, b, size=1):
+        return {"name": name, "role": "rand", "size": size, "shared": True, "laws": [uni(a, b)]}
+
+    dvar = {"name": "d", "role": "det", "type": "float", "size": 1, "lb": [-1.0], "ub": [1.0]}
+    base = [dvar, rv("u", 0.0, 1.0), rv("z", 10.0, 11.0)]
+    three = [rv("u", 0.0, 1.0), dvar, {"name": "n", "role": "rand", "size": 3, "shared": False, "laws": nrm}, rv("z", 10.0, 11.0, 2)]
+    histories = [
+        (base, [{"op": "rename", "name": "u", "new": "v"}]),
+        (base, [{"op": "rename", "name": "u", "new": "v"}, {"op": "add_random", "var": rv("w", 20.0, 21.0)}]),
+        (base, [{"op": "rename", "name": "u", "new": "v"}, {"op": "rebuild"}]),
+        (base, [{"op": "rename", "name": "z", "new": "y"}, {"op": "rename", "name": "d", "new": "dd"}]),
+        (three, [{"op": "rename", "name": "n", "new": "m"}, {"op": "extract_uncertain"}]),
+        (three, [{"op": "rename", "name": "u", "new": "a"}, {"op": "remove", "name": "n"}]),
+        (three, [{"op": "remove", "name": "u"}, {"op": "add_random", "var": rv("w", 20.0, 21.0)}, {"op": "rename", "name": "n", "new": "m"}]),
+        (three, [{"op": "filter", "keep": ["z", "u", "d"], "copy": False}, {"op": "rename", "name": "u", "new": "a"}]),
+        (three, [{"op": "filter", "keep": ["z", "n"], "copy": True}, {"op": "add_det", "var": dict(dvar, name="c")}]),
+        (three, [{"op": "rename", "name": "n", "new": "m"}, {"op": "add_variables_from", "names": ["z", "d", "m"]}]),
+        (three, [{"op": "add_variables_from", "names": ["z", "u"]}, {"op": "rename", "name": "z", "new": "y"}, {"op": "rebuild"}]),
+    ]
+    for k, (variables, edits) in enumerate(histories):
+        for warm in (False, True):
+            L.append({"kind": "space", "libs": ["SP", "OT"], "n_points": 3, "point_seed": 20 + k, "variables": variables,
+                      "edits": edits, "warm": warm})
     return L
 
 
@@ -1164,7 +1368,7 @@ def run_shard(spec, rep):
         if rep.time_left() < 0:
             rep.count("stopped_on_time_budget")
             break
-        case = gen.gen_space_case(rng)
+        case = gen.gen_edited_space_case(rng) if i % 5 < 3 else gen.gen_space_case(rng)
         run_space_case(case, rep, seed + 100000 + i)
         rep.count("generated_space_cases")
         if i < 1:
@@ -1173,5 +1377,5 @@ def run_shard(spec, rep):
 
 def replay(case, rep):
     _quiet()
-    case = {k: v for k, v in case.items() if k not in ("failing_point", "component", "variable")}
+    case = {k: v for k, v in case.items() if k not in ("failing_point", "component", "variable", "failing_law")}
     run_case(case, rep, 12345)
